@@ -58,6 +58,13 @@ Fragment(d) ==
       [] d = "dup_loop_twice" -> [F(Wd("loop_") \o Sp \o Wd("_d1") \o Sp \o Wd("_d2") \o <<EOL>> \o C1("1") \o Sp \o C1("2") \o <<EOL>>
                                     \o Wd("loop_") \o Sp \o Wd("_d2") \o Sp \o Wd("_d1") \o <<EOL>> \o C1("3") \o Sp \o C1("4"), 41)
                                    EXCEPT !.loops = <<[names |-> <<Wd("_d1"), Wd("_d2")>>, packets |-> <<<<Bare(C1("1")), Bare(C1("2"))>>>>]>>]
+      \* a scalar whose name is already that of a loop column (of two packets: the name has several values by then; of one)
+      [] d = "dup_scalar_of_loop" -> [F(Wd("loop_") \o Sp \o Wd("_d1") \o Sp \o Wd("_d2") \o <<EOL>> \o C1("1") \o Sp \o C1("2") \o Sp \o C1("3") \o Sp \o C1("4")
+                                         \o <<EOL>> \o Wd("_d1") \o Sp \o C1("5"), 41)
+                                       EXCEPT !.loops = <<[names |-> <<Wd("_d1"), Wd("_d2")>>, packets |-> <<<<Bare(C1("1")), Bare(C1("2"))>>, <<Bare(C1("3")), Bare(C1("4"))>>>>]>>]
+      [] d = "dup_scalar_of_loop1" -> [F(Wd("loop_") \o Sp \o Wd("_d1") \o Sp \o Wd("_d2") \o <<EOL>> \o C1("1") \o Sp \o C1("2")
+                                          \o <<EOL>> \o <<"_", "D", "2">> \o Sp \o C1("5"), 41)
+                                        EXCEPT !.loops = <<[names |-> <<Wd("_d1"), Wd("_d2")>>, packets |-> <<<<Bare(C1("1")), Bare(C1("2"))>>>>]>>]
       [] d = "dup_block" -> [F(Wd("data_B") \o <<EOL>> \o Wd("_d1") \o Sp \o C1("1"), 11) EXCEPT !.items = <<It(Wd("_d1"), Bare(C1("1")))>>, !.lastonly = TRUE]
       [] d = "dup_frame" -> [F(Wd("save_g") \o Sp \o Wd("_d1") \o Sp \o C1("1") \o Sp \o Wd("save_") \o <<EOL>> \o Wd("save_G") \o Sp \o Wd("_d2") \o Sp \o C1("2") \o Sp \o Wd("save_"), 21)
                               EXCEPT !.frames = <<[code |-> <<"g">>, items |-> <<It(Wd("_d1"), Bare(C1("1"))), It(Wd("_d2"), Bare(C1("2")))>>]>>]
